@@ -78,6 +78,7 @@ pub fn run(rep: &mut Report) {
     rep.rule = "every input pattern a: sqrt(a) compared with the posit rounding of the exact square root, decided by exact comparison of a with t^2 (NaR for NaR / negative, 0 for 0). P8, P16: all patterns. P32: all 2^32 patterns against the fast oracle in both tiers, plus proptest inputs (squares of thresholds and of posits +-2 ulp, structured bits) against the exact oracle. Non-trivial = positive input whose root is not representable; distinct inputs."
         .into();
     rep.assumptions = std_assumptions();
+    rep.complete = true; // P8, P16 and P32 are each enumerated completely below
     super::run_corpus(rep, replay);
     rep.exhaustive("P8E0 all 256 inputs", 1 << 8, |i, l| sqrt_slow::<P8E0>(i, l));
     rep.exhaustive("P16E1 all 65536 inputs", 1 << 16, |i, l| sqrt_slow::<P16E1>(i, l));
